@@ -182,6 +182,9 @@ R(e, C) ==
            (CASE e.m = "notify" -> Res(UNION {NotifyCall(s, e.id, e.l) : s \in C}, {}, Touch(mon, Towers, e.ts))
               [] e.m = "registertower" -> Res(UNION {RegCall(s, e.id, e.t) : s \in C}, {}, Touch(mon, {e.t}, e.ts))
               [] OTHER -> Res(C, {}, Touch(mon, {e.t} \cap Towers, e.ts)))
+      [] e.ev = "ret" /\ C # {} /\ \A s \in C : ~s.alive ->
+           \* an answer given just before a SIGKILL may be read (and logged) by the rig after it
+           Res(C, {}, mon)
       [] e.ev = "ret" ->
            (CASE e.m = "notify" ->
                    Let1(UNION {{NotifyRet(s, n) : n \in {x \in s.nots : x.id = e.id /\ NotifyCanRet(s, x)}} : s \in C}, LAMBDA B :
@@ -214,6 +217,9 @@ R(e, C) ==
               IF B # {} THEN Res(B, {}, mon)
               ELSE Res({DropTask(s, e.id) : s \in C},
                        T(IF e.m = "notify" THEN "C05" ELSE "C14", "Survives.no_answer_to_" \o e.m), mon))
+      [] e.ev = "req" /\ C # {} /\ \A s \in C : ~s.alive ->
+           \* sent just before a SIGKILL, read (and logged) by the tower after it; the answer goes nowhere
+           Res(C, {}, mon)
       [] e.ev = "req" ->
            Let1(UNION {SendSet(s, e.t, e.ep, e.l, e.seq, e.ts) : s \in C}, LAMBDA B :
               IF B # {} THEN Res(B, {}, mon) ELSE Res(C, ReqTags(C, e), mon))
@@ -234,11 +240,15 @@ R(e, C) ==
            Let1(IF e.ev = "obs" THEN e ELSE [mon.lastObs EXCEPT !.ts = e.ts], LAMBDA eo :
            Let1(ObsStep(C, eo, TmOf(mon.cfg, e.ts, e.ts)), LAMBDA o :
            Let1([ObsMon(eo, mon) EXCEPT !.lastObs = [db |-> eo.db, mem |-> eo.mem, memok |-> eo.memok, ts |-> eo.ts]], LAMBDA m2 :
-           Let1(TimingTags(eo, m2), LAMBDA tt :
+           Let1(TimingTags(eo, m2)
+                \* C14 RegRecorded, on the rows themselves: every stored registration receipt verifies under its tower id
+                \cup (IF "RegRecorded" \notin mon.flagged /\ \E r \in SetOf(eo.db.regs) : ~r.ok
+                      THEN T("C14", "RegRecorded.unverifiable_receipt_stored") ELSE {}), LAMBDA tt :
               Res(o.bel, o.tags \cup tt,
                   [m2 EXCEPT !.flagged = @ \cup {x[3] : x \in {y \in tt : y[3] = "Delivered.not_within_bound"}}
                                            \cup (IF \E y \in tt : y[3] = "Delivered.not_within_bound" THEN {"Delivered"} ELSE {})
-                                           \cup (IF \E y \in tt : y[3] = "EndsUnreachable.not_within_bound" THEN {"EndsUnreachable"} ELSE {})])))))
+                                           \cup (IF \E y \in tt : y[3] = "EndsUnreachable.not_within_bound" THEN {"EndsUnreachable"} ELSE {})
+                                           \cup (IF \E y \in tt : y[3] = "RegRecorded.unverifiable_receipt_stored" THEN {"RegRecorded"} ELSE {})])))))
       [] e.ev = "probe" ->
            Let1({s \in C : e.answered = (s.alive /\ ~s.poisoned)}, LAMBDA B :
               IF B # {} THEN Res(B, {}, mon) ELSE Res(C, T("C14", "Survives.probe_not_answered"), mon))
